@@ -18,7 +18,8 @@ RULE = ("rules: $deref with every present/absent combination of register_multipl
         "base/index in {rax,rbx,rcx,rsp}, scale 1/2/4/8, disp in {0x0,0x8,0x10,0x18,-0x8,0x80,0x7fffffff,-0x80000000,0x12345678}} plus registers and "
         "immediates (AT&T text through the real operand normaliser). Round trip: every position-1 rule also against ONE real listing - `lea OP,%rdx` for every valid memory operand of the menu, assembled by `as` and printed by `objdump -d -M att` - where the matched addresses must be exactly those the reference selects. $deref meeting capture groups: a capture defined after a $deref of each shape and used again; plain and register-family captures as base / scaled index, used again in the next instruction, on every menu operand followed by a push of each of 4 registers. Oracle: component-wise equality (same present "
         "components, each equal modulo optional % / 0x). Non-trivial = reference finds the rule, or the operand is a "
-        "bracket form with the same main register.")
+        "bracket form with the same main register. Family PO: constant_offset / constant_multiplier written as a $or of EVERY ordered "
+        "pair of their spellings (17 offsets of either sign, 5 scales), in the full and the k(a) form, x the whole operand menu.")
 ASSUMPTIONS = ["a constant written WITH 0x in the rule is not required to match an operand printed without it (scale)"]
 LEVEL_TEXT = ("All $deref rules of the stated grammar x all operands of the menu in both operand positions; verdict compared "
               "with the component-wise reference. Exhaustive within bounds; includes a real as+objdump round trip of the whole operand menu.")
@@ -114,8 +115,26 @@ def capture_rules(tier):
     return rules
 
 
+def or_field_rules(tier):
+    """constant fields written as an alternation of spellings ($or inside the field): every ordered pair of the offset
+    spellings (either sign, with / without 0x, int / str) and of the scale spellings; the operand must be accepted
+    exactly when one alternative denotes its component"""
+    rules = []
+    full = {"main_reg": "rax", "register_multiplier": "rbx", "constant_multiplier": 4, "constant_offset": "0x8"}
+    K = ["0x7fffffff", "7fffffff", "-0x80000000", "-80000000", "0x0", 0, "0", "0x8", 8, "8", "0x10", "10", "-0x8", "-8", -8, "0x80", "80"]
+    C = [1, 4, 8, "0x4", "4"]
+    for f, vals in (("constant_offset", K), ("constant_multiplier", C)):
+        for alts in itertools.product(vals, repeat=2):
+            d = dict(full)
+            d[f] = [{"$or": list(alts)}]
+            rules.append(e1.RuleCase(f"PO/{f}", [{"mov": [{"$deref": d}, "rdx"]}], "p1"))
+            if f == "constant_offset":
+                rules.append(e1.RuleCase("PO/short", [{"mov": [{"$deref": {"main_reg": "rax", f: [{"$or": list(alts)}]}}, "rdx"]}], "p1"))
+    return rules
+
+
 def all_rules(tier):
-    return rules_for(tier) + capture_rules(tier)
+    return rules_for(tier) + capture_rules(tier) + or_field_rules(tier)
 
 
 def shards(tier):
